@@ -17,13 +17,32 @@ import tempfile
 
 from common import CACHE
 
+# every kind of binding the runtime takes from the resolver's facts, with a same-named alternative live on the call
+# path: a by-name fallback (seed C18-c1: call bindings left unsorted when the analyses are skipped, so the binary
+# search misses user calls nested in another call's arguments) prints 11 / 110 / 1 / 70 instead
+BIND = ("do tag() start return 1 end\n"
+        "do id(v) start return v end\n"
+        "do probe() start return id(tag()) end\n"
+        "start\n"
+        "    do tag() start return 11 end\n"
+        "    shout(probe())\n"
+        "    shout(id(tag()) times 10)\n"
+        "end\n"
+        "shout(probe())\n"
+        "make v get 7\n"
+        "do show() start return v end\n"
+        "do run() start make v get 70 return show() end\n"
+        "shout(run())\n")
+BIND_OUT = ["1", "110", "1", "7"]
+
 FILLERS = {
-    # name: (prologue, statement, epilogue, expected last line as a function of n)
-    "incr": ("make x get 0\n", "x get x add 1\n", "shout(x)\n", lambda n: str(n)),
-    "store": ("make x get 0\n", "x get 1\n", "shout(x)\n", lambda n: "1"),
-    "expr": ("make x get 0\nmake y get 2\n", "x get (x add y times 2 minus 3) mod 7 add 1\n", "shout(x pass 0)\n", lambda n: "true"),
-    "calls": ("make x get 0\ndo inc(a) start return a add 1 end\n", "x get inc(x)\n", "shout(x)\n", lambda n: str(n)),
-    "strings": ("make s get \"\"\n", "s get \"ab\".to_uppercase()\n", "shout(s)\n", lambda n: "AB"),
+    # name: (prologue, statement, epilogue, expected last line(s) as a function of n, statements of prologue + epilogue)
+    "incr": ("make x get 0\n", "x get x add 1\n", "shout(x)\n", lambda n: str(n), 2),
+    "store": ("make x get 0\n", "x get 1\n", "shout(x)\n", lambda n: "1", 2),
+    "expr": ("make x get 0\nmake y get 2\n", "x get (x add y times 2 minus 3) mod 7 add 1\n", "shout(x pass 0)\n", lambda n: "true", 3),
+    "calls": ("make x get 0\ndo inc(a) start return a add 1 end\n", "x get inc(x)\n", "shout(x)\n", lambda n: str(n), 4),
+    "strings": ("make s get \"\"\n", "s get \"ab\".to_uppercase()\n", "shout(s)\n", lambda n: "AB", 2),
+    "bind": (BIND + "make x get 0\n", "x get x add 1\n", "shout(x)\n", lambda n: BIND_OUT + [str(n)], 21),
 }
 
 
@@ -37,15 +56,14 @@ def statement_limit(ck):
         return 262144
 
 
-def run(ck, names=("incr", "expr"), deltas=(-2, 0, 56), profile="debug", time_limit=300):
+def run(ck, names=("incr", "bind"), deltas=(-2, 0, 56), profile="debug", time_limit=300):
     cli = ck.build_cli(profile)
     lim = statement_limit(ck)
     tmp = tempfile.mkdtemp(prefix="c18cli-", dir=os.path.join(CACHE))
     cov = ck.extra_cov.setdefault("cli_statement_limit", {"limit": lim, "cases": []})
     try:
         for name in names:
-            pro, stmt, epi, want = FILLERS[name]
-            fixed = pro.count("\n") + epi.count("\n")
+            pro, stmt, epi, want, fixed = FILLERS[name]
             for d in deltas:
                 n = lim + d - fixed if d < 0 else lim + d
                 total = n + fixed
@@ -63,17 +81,20 @@ def run(ck, names=("incr", "expr"), deltas=(-2, 0, 56), profile="debug", time_li
                 os.unlink(path)
                 ck.evaluations += 1
                 ck.count("cli_statement_limit_cases")
-                last = out.strip().splitlines()[-1] if out.strip() else ""
+                w = want(n)
+                w = w if isinstance(w, list) else [w]
+                lines = out.strip().splitlines()
+                last = "\\n".join(lines[-len(w):]) if lines else ""
                 warned = "resource limit" in out
                 over = total > lim
-                ok = rc == 0 and last == want(n) and warned == over
+                ok = rc == 0 and lines[-len(w):] == w and warned == over
                 cov["cases"].append({"filler": name, "statements": total, "over_limit": over, "exit": rc,
                                      "warned": warned, "ok": ok})
                 if ok:
                     ck.nontrivial_case(f"cli-statements {name} {total}")
                     continue
                 what = (f"shipped binary on {total} statements of `{stmt.strip()}` (limit {lim}): exit {rc}, last line "
-                        f"{last[:60]!r} (expected {want(n)!r}), resource-limit warning {'present' if warned else 'absent'} "
+                        f"{last[:60]!r} (expected {w!r}), resource-limit warning {'present' if warned else 'absent'} "
                         f"(expected {'present' if over else 'absent'}); stderr: {err.strip().splitlines()[0][:160] if err.strip() else ''}")
                 ck.report_violation({"kind": "impl-vs-oracle", "family": "cli-statements", "what": what,
                                      "generator": {"filler": name, "n": n, "prologue": pro, "statement": stmt, "epilogue": epi},
